@@ -219,10 +219,135 @@ def _run_crc_fold(F, R, fn, name, width, poly, exit_check, site):
     return obligations, discharged
 
 
+def _peel_site(fn):
+    """`let mut rest = message; while let [byte, tail @ ..] = rest { ..; rest = tail }`: (header, cursor local) when the
+    function's one loop is driven by a slice cursor instead of an iterator, else None"""
+    loops = fn.loops()
+    if len(loops) != 1:
+        return None
+    h, body, backs = loops[0]
+    if any(fn.term(b)["k"] == "Call" and (callee_of(fn.term(b)) or "").endswith("Iterator::next") for b in body):
+        return None
+    curs = []
+    for i, l in enumerate(fn.locals):
+        if i <= fn.arg_count or l["ty"].replace("&'_ ", "&") not in ("&[u8]",):
+            continue
+        ds = fn.defs().get(i, [])
+        if any(d[1] in body for d in ds) and any(d[1] not in body for d in ds) and l.get("name"):
+            curs.append(i)
+    return (h, body, curs[0]) if len(curs) == 1 else None
+
+
+def _run_crc_peel(F, R, fn, name, width, poly, exit_check, site):
+    """init / step / exit for the slice-cursor form, decided by evaluating one trip of the loop from its header: with n
+    bytes left (n = 1, 2, 5; every byte a different unknown) the trip folds exactly the first of them into the remainder by
+    the reference step and leaves the cursor on the other n - 1; with 0 bytes left the function returns"""
+    h, body, cur = site
+    I = Interp(F, mode="bv", max_paths=20000, max_steps=2000000)
+    before = fn.reach([0], cut_blocks=[h])
+    cands = []
+    for i, l in enumerate(fn.locals):
+        if l["ty"] not in ("u8", "u16", "u32") or i == 0:
+            continue
+        ds = fn.defs().get(i, [])
+        if any(d[0] == "assign" and d[1] in before and d[1] not in body for d in ds) and any(d[0] in ("assign", "call") and d[1] in body for d in ds):
+            cands.append(i)
+    if len(cands) != 1:
+        raise KeyError("cannot identify the running-remainder variable in %s (candidates %s)" % (name, [fn.locals[i]["name"] for i in cands]))
+    cl = cands[0]
+    cw = {"u8": 8, "u16": 16, "u32": 32}[fn.locals[cl]["ty"]]
+    obligations = discharged = 0
+    step_ok, init_ok, bad = True, True, None
+    for n in (1, 2, 5):
+        st = State()
+        syms = [sym_int(I.vars, "b%d_%d" % (n, k), 8) for k in range(n)]
+        from .absval import arr as _arr
+        cell = I.heap_alloc(st, _arr(syms))
+        data = ptr(cell[1], cell[2], cell[3], (const(0, 64), const(n, 64)))
+        outs = I.run(fn, [data], st, 0, stop=(h,))
+        obligations += 1
+        if len(outs) != 1 or not (isinstance(outs[0][0], tuple) and outs[0][0] and outs[0][0][0] == "stop"):
+            init_ok = False
+            R.bad(fn, name + ":early-return", "%s returns on some path without folding the message through the CRC loop (special-cased input?)" % name, fn.loc(0))
+            continue
+        rv, s1 = outs[0]
+        fr = s1.frames[rv[2]]
+        v = fr.get(cl)
+        c0 = fr.get(cur)
+        if not (is_int(v) and int_const(v) == 0):
+            init_ok = False
+            R.bad(fn, name + ":init", "initial remainder is %s, must be 0" % (I.show(v) if v else v), fn.loc(0))
+        if not (c0 is not None and c0[:4] == data[:4] and c0[4] is not None and int_const(c0[4][0]) == 0 and int_const(c0[4][1]) == n):
+            init_ok = False
+            R.bad(fn, name + ":init", "the cursor does not start at the whole message", fn.loc(0))
+        crc0 = sym_int(I.vars, "c%d" % n, cw)
+        preset = dict(fr)
+        preset[cl] = crc0
+        o2 = I.run(fn, [], s1.fork(), 0, start=h, preset=preset, stop=(h,))
+        ref = ref_step(bits_of(crc0)[:width], bits_of(syms[0]), poly, width)
+        stops = [(r_, s_) for r_, s_ in o2 if isinstance(r_, tuple) and r_ and r_[0] == "stop"]
+        if len(stops) != 1 or len(o2) != 1:
+            step_ok = False
+            bad = bad or "with %d byte(s) left the loop %s" % (n, "returns instead of folding them" if not stops else "has several outcomes")
+            continue
+        r_, s2 = stops[0]
+        f2 = s2.frames[r_[2]]
+        c1 = f2.get(cur)
+        if not (c1 is not None and c1[:4] == data[:4] and c1[4] is not None and int_const(c1[4][0]) == 1 and int_const(c1[4][1]) == n - 1):
+            step_ok = False
+            bad = bad or "after one trip with %d byte(s) left the cursor is not on the remaining %d" % (n, n - 1)
+        v = f2.get(cl)
+        if not is_int(v):
+            raise RuleUndecided("loop body of %s left the bit-vector fragment (remainder is %r)" % (name, v))
+        nbits = bits_of(v)
+        for j in range(width):
+            obligations += 1
+            if nbits[j] == TOPBIT:
+                raise RuleUndecided("bit %d of the remainder is not an affine form after one byte step of %s" % (j, name))
+            if s2.reduce(nbits[j] ^ ref[j]) == 0:
+                discharged += 1
+            else:
+                step_ok = False
+                bad = bad or "remainder bit %d is %s, the specification gives %s" % (j, I.vars.name_of_mask(nbits[j]), I.vars.name_of_mask(ref[j]))
+    if init_ok:
+        discharged += 3
+        R.ok(fn, name + ":init", "remainder initialised to 0 and the cursor to the whole message on every path into the loop")
+    if step_ok:
+        R.ok(fn, name + ":step", "one trip folds exactly the first remaining byte by the reference %d-bit CRC step (poly %#x, MSB first) and advances the cursor by one" % (width, poly | (1 << width)), fn.loc(h))
+    else:
+        R.bad(fn, name + ":step", "one byte step of %s is not division by the polynomial %#x over each byte in turn: %s" % (name, poly | (1 << width), bad), fn.loc(h))
+    # exit: nothing left
+    st = State()
+    cell = I.heap_alloc(st, ("arrtop", 0, 1 << 62, sym_int(I.vars, "m", 8)))
+    crcx = sym_int(I.vars, "x", cw)
+    endp = ptr(cell[1], cell[2], cell[3], (mk_int(64, False, None, 0, 1 << 62), const(0, 64)))
+    outs = I.run(fn, [], st, 0, start=h, preset={cl: crcx, cur: endp, 1: TOP}, stop=(h,))
+    okx = bool(outs)
+    for (rv, s2) in outs:
+        obligations += 1
+        if not is_int(rv):
+            okx = False
+            continue
+        e = exit_check(bits_of(crcx), bits_of(rv))
+        if e is None:
+            discharged += 1
+        else:
+            okx = False
+            R.bad(fn, name + ":exit", "final transformation of %s is wrong: %s" % (name, e), fn.loc(0))
+    if okx:
+        R.ok(fn, name + ":exit", "result derived from the remainder as specified")
+    else:
+        R.bad(fn, name + ":exit", "with no bytes left %s does not return the remainder as specified" % name, fn.loc(0))
+    return obligations, discharged
+
+
 def _run_crc_inner(F, R, fn, name, width, poly, exit_check):
     site = _fold_site(fn)
     if site is not None:
         return _run_crc_fold(F, R, fn, name, width, poly, exit_check, site)
+    site = _peel_site(fn)
+    if site is not None:
+        return _run_crc_peel(F, R, fn, name, width, poly, exit_check, site)
     I = Interp(F, mode="bv", max_paths=20000, max_steps=2000000)
     h, body, nb, nt, sw, kind = _loop_parts(fn)
     # the running remainder: the integer local initialised before the loop, updated inside it and read after it
